@@ -241,9 +241,16 @@ void cmb_resource_release(struct cmb_resource *rp) {
     struct cmi_holdable *hrp = (struct cmi_holdable *)rp;
     struct cmb_process *pp = cmb_process_current();
     cmb_assert_debug(pp != NULL);
-    cmi_process_remove_holdable(pp, hrp);
+    if (rp->holder != pp) {
+        /*
+         * Preempted, and the notice has not reached the caller (an interrupt
+         * got there first and cancelled it): the resource is not ours to free.
+         */
+        cmb_logger_info(stdout, "Does not hold %s, nothing to release", hrp->base.name);
+        return;
+    }
 
-    cmb_assert_debug(rp->holder == pp);
+    cmi_process_remove_holdable(pp, hrp);
     rp->holder = NULL;
     record_sample(rp);
 
